@@ -41,6 +41,17 @@ def make_probe(idx, log):
         names = [r.get('name') for r in res_descs]
         if len(set(names)) != len(names):
             log.add(idx, 'duplicate_resource_names', 'resource names not unique: %r' % names)
+        for r in res_descs:
+            sch = r.get('schema') or {}
+            fnames = [f.get('name') for f in sch.get('fields', [])]
+            pk = sch.get('primaryKey') or []
+            pk = [pk] if isinstance(pk, str) else list(pk)
+            missing = [k for k in pk if k not in fnames]
+            if missing:
+                log.add(idx, 'primary_key_undeclared', 'resource %r: primaryKey %r names %r which is not a declared field %r'
+                        % (r.get('name'), pk, missing, fnames))
+            if len(set(fnames)) != len(fnames):
+                log.add(idx, 'duplicate_field_names', 'resource %r: field names not unique: %r' % (r.get('name'), fnames))
         yield package.pkg
         n = 0
         for res in package:
